@@ -393,7 +393,11 @@ type ReadResult struct {
 // the position, the file size and every page through the mount (and its
 // simulated cache), and releases the lock. ErrBusy means a writer holds the
 // lock right now.
-func (n *CNode) Read(db string) (res ReadResult, err error) {
+func (n *CNode) Read(db string) (res ReadResult, err error) { return n.ReadUnder(db, nil) }
+
+// ReadUnder is Read with a callback that runs while the read lock is still
+// held (no internal writer can be active then).
+func (n *CNode) ReadUnder(db string, under func()) (res ReadResult, err error) {
 	m := n.M
 	n.cl.nextOwner++
 	owner := n.cl.nextOwner
@@ -471,6 +475,9 @@ func (n *CNode) Read(db string) (res ReadResult, err error) {
 	} else if n := ref.HeaderPageN(res.Image.Page(1)); n > 0 && n < res.Image.N() {
 		// between a shrinking commit and SQLite's truncate the file is longer than the database
 		res.Image.Resize(n)
+	}
+	if under != nil {
+		under()
 	}
 	return res, nil
 }
